@@ -4,6 +4,7 @@ Property theorems only; helper lemmas are in DL/Lemmas.
 -/
 import DL.Lemmas.Sort
 import DL.Lemmas.ChainRT
+import DL.Lemmas.ChainParser
 namespace DL
 
 /-- what every `DecayMode` object satisfies: the daughters are kept in canonical order, the metadata
@@ -193,5 +194,129 @@ example : (∀ k m, dget exampleChain.decays k = some m → WFMode m) ∧
   refine (h6 "pi0" ?_).2
   exact Reach.step (md := Mode.new "1.0" ["pi0", "pi0"] []) Reach.root rfl
     (by simp [Mode.new, ddOfList, ssort_pair_same]) rfl
+
+/-! ### decay chains: parser form → class form → dictionary form
+
+`DecFileParser.build_decay_chains` writes the daughters in file order, `DecayChain.to_dict` in sorted
+order.  `ParserChain`, `sortItems`, `canonChain`, `Chain.depth`, `EqvChain` are defined in
+DL/Lemmas/ChainParser.lean. -/
+
+/-- a single-line chain produced by the parser converts to the class form, and the dictionary form
+    of that is the parser dictionary with the daughters of every level in canonical order — also
+    when the same decaying particle occurs several times -/
+theorem C11_parser (pd : Chain Info) (h : ParserChain pd) (fuel : Nat) (hf : pd.depth < fuel) :
+    ∃ c, DChain.fromDict pd = .ok c ∧ c.mother = pd.mother ∧ c.toDict fuel = .ok (canonChain pd) :=
+  parser_roundtrip pd h fuel hf
+
+/-- the canonical order is a rearrangement: the same items, sorted by the name they are shown under -/
+theorem C11_sortItems (fs : List (Item Info)) :
+    (sortItems fs).Perm fs ∧
+    List.Pairwise (fun a b => a.name ≤ b.name) (sortItems fs) ∧
+    (sortItems fs).map Item.name = ddOfList (fs.map Item.name) := by
+  refine ⟨sortItems_perm fs, ?_, sortItems_names fs⟩
+  have := sortItems_sorted fs
+  simpa [itemLe, sleb] using this
+
+/-- `canonChain` keeps the mother and the information of every mode, and at every level the
+    daughters are a rearrangement of the (canonicalised) daughters -/
+theorem C11_canon_level (m : String) (modes : List (CMode Info)) :
+    canonChain (.mk m modes) = .mk m (modes.map fun ifs => (ifs.1, sortItems (ifs.2.map canonItem))) ∧
+    ∀ ifs ∈ modes, (sortItems (ifs.2.map canonItem)).Perm (ifs.2.map canonItem) := by
+  refine ⟨?_, fun ifs _ => sortItems_perm _⟩
+  simp only [canonChain, canonModes_eq_map]
+
+/-- the canonical form is the same dictionary up to the order of daughters at every level -/
+theorem C11_canon_eqv (pd : Chain Info) : EqvChain pd (canonChain pd) := canonChain_eqv pd
+
+/-- canonicalising twice changes nothing -/
+theorem C11_canon_idem (pd : Chain Info) : canonChain (canonChain pd) = canonChain pd :=
+  canonChain_idem pd
+
+/-- non-vacuity: D*+ -> D0 pi+, D0 -> K- pi+, daughters written in unsorted order -/
+def exampleD0 : Chain Info :=
+  .mk "D0" [({ bf := "0.0389", rest := [("model", "\"PHSP\""), ("model_params", "[]")] },
+    [.inl "pi+", .inl "K-"])]
+def exampleDst : Chain Info :=
+  .mk "D*+" [({ bf := "0.677", rest := [("model", "\"VSS\""), ("model_params", "[]")] },
+    [.inl "pi+", .inr exampleD0])]
+def exampleD0Canon : Chain Info :=
+  .mk "D0" [({ bf := "0.0389", rest := [("model", "\"PHSP\""), ("model_params", "[]")] },
+    [.inl "K-", .inl "pi+"])]
+def exampleDstCanon : Chain Info :=
+  .mk "D*+" [({ bf := "0.677", rest := [("model", "\"VSS\""), ("model_params", "[]")] },
+    [.inr exampleD0Canon, .inl "pi+"])]
+
+theorem exampleDst_parser : ParserChain exampleDst := by
+  have hn : exampleDst.nodes = [exampleDst, exampleD0] := by
+    simp [exampleDst, exampleD0, Chain.nodes, nodesModes, nodesFs]
+  have hl : exampleDst.leaves = ["pi+", "pi+", "K-"] := by
+    simp [exampleDst, exampleD0, Chain.leaves, leavesModes, leavesFs]
+  constructor
+  · intro t ht
+    rw [hn] at ht
+    simp only [List.mem_cons, List.not_mem_nil, or_false] at ht
+    rcases ht with rfl | rfl
+    · exact ⟨_, _, _, _, rfl, rfl, by decide⟩
+    · exact ⟨_, _, _, _, rfl, rfl, by decide⟩
+  · intro t ht t' ht' hm
+    rw [hn] at ht ht'
+    simp only [List.mem_cons, List.not_mem_nil, or_false] at ht ht'
+    rcases ht with rfl | rfl <;> rcases ht' with rfl | rfl
+    · rfl
+    · exact absurd hm (by decide)
+    · exact absurd hm (by decide)
+    · rfl
+  · intro t ht p hp
+    rw [hn] at ht
+    rw [hl] at hp
+    simp only [List.mem_cons, List.not_mem_nil, or_false] at ht hp
+    rcases ht with rfl | rfl <;> rcases hp with rfl | rfl | rfl <;> decide
+
+theorem exampleDst_canon : canonChain exampleDst = exampleDstCanon := by
+  simp only [exampleDst, exampleD0, canonChain, canonModes, canonFs]
+  rw [sortItems_swap _ _ (by decide), sortItems_swap _ _ (by decide)]
+  rfl
+
+example : ParserChain exampleDst ∧ exampleDst.depth < 2 ∧
+    ∃ c, DChain.fromDict exampleDst = .ok c ∧ c.mother = "D*+" ∧ c.toDict 2 = .ok exampleDstCanon := by
+  have hd : exampleDst.depth < 2 := by decide
+  refine ⟨exampleDst_parser, hd, ?_⟩
+  obtain ⟨c, h1, h2, h3⟩ := C11_parser exampleDst exampleDst_parser 2 hd
+  exact ⟨c, h1, h2, exampleDst_canon ▸ h3⟩
+
+/-- non-vacuity of the general case: D0 -> pi0 pi0 with the decaying pi0 written out twice -/
+def examplePi0Twice : Chain Info :=
+  .mk "D0" [({ bf := "1.0", rest := [("model", "\"PHSP\""), ("model_params", "[]")] },
+    [.inr examplePi0Dict, .inr examplePi0Dict])]
+
+example : ParserChain examplePi0Twice ∧
+    ∃ c, DChain.fromDict examplePi0Twice = .ok c ∧ c.mother = "D0" ∧
+      c.toDict 2 = .ok (canonChain examplePi0Twice) := by
+  have hp : ParserChain examplePi0Twice := by
+    have hn : examplePi0Twice.nodes = [examplePi0Twice, examplePi0Dict, examplePi0Dict] := by
+      simp [examplePi0Twice, examplePi0Dict, Chain.nodes, nodesModes, nodesFs]
+    have hl : examplePi0Twice.leaves = ["gamma", "gamma", "gamma", "gamma"] := by
+      simp [examplePi0Twice, examplePi0Dict, Chain.leaves, leavesModes, leavesFs]
+    constructor
+    · intro t ht
+      rw [hn] at ht
+      simp only [List.mem_cons, List.not_mem_nil, or_false, or_self] at ht
+      rcases ht with rfl | rfl
+      · exact ⟨_, _, _, _, rfl, rfl, by decide⟩
+      · exact ⟨_, _, _, _, rfl, rfl, by decide⟩
+    · intro t ht t' ht' hm
+      rw [hn] at ht ht'
+      simp only [List.mem_cons, List.not_mem_nil, or_false, or_self] at ht ht'
+      rcases ht with rfl | rfl <;> rcases ht' with rfl | rfl
+      · rfl
+      · exact absurd hm (by decide)
+      · exact absurd hm (by decide)
+      · rfl
+    · intro t ht p hp
+      rw [hn] at ht
+      rw [hl] at hp
+      simp only [List.mem_cons, List.not_mem_nil, or_false, or_self] at ht hp
+      rcases ht with rfl | rfl <;> subst hp <;> decide
+  exact ⟨hp, C11_parser _ hp 2 (by decide)⟩
 
 end DL
